@@ -41,7 +41,7 @@ CLAIMED = {
              "unbounded length) to forward signals in place and exactly the travelers their documented meaning keeps, in order, to close "
              "their output once, and for limit/skip/range to emit the closed-form number of rows (min(N,n), max(0,N-n), range arithmetic); "
              "traveler copy-on-step (AddCurrent, AddMark) is proved pointwise (marks, path, current, signal). Lookup/adjacency steps, "
-             "as(), select(marks) and path() are proved element-wise maps, unwind is proved to emit n rows for a list of n > 0 elements and one row otherwise; render/fields/distinct and the pipeline wiring are not under contract. The lookup steps V(), V(ids), E(), E(ids) are proved to forward signals in place and to emit, per input traveler and in order, one traveler per listed element resp. per requested id the graph has, carrying that id (the graph's answers are named by an assumed GraphInterface contract); both halves of out/in (from vertex or edge), inE and outE are proved to send one request per traveler (the current id resp. the edge endpoint; none for signals and null rows) and to emit one output per answer of the graph, the requesting traveler moved to the returned element. both()/bothE() is proved to forward signals at once, to hand every other traveler in order to the in- and the out-direction step of the right kind, and to emit everything the first and then everything the second produced. The index lookup step introduced by the start rewrite is proved to send one request per input traveler, label and scanned id and to emit one output per answer, moved to the found vertex's id. Which answers a driver gives is not decided. Typing: StatementProcessor is proved against the "
+             "as(), select(marks) and path() are proved element-wise maps, unwind is proved to emit n rows for a list of n > 0 elements and one row otherwise; distinct() is proved to forward signals in place and, of the other rows, exactly those in which every listed field exists, whose key (the NUL-joined %#v renderings of the listed fields' values) is not empty and was not the key of an earlier such row, in order, the temporary store holding exactly the keys seen (assumed: the temporary store starts empty and accepts writes; the renderings separate distinct values); render/fields and the pipeline wiring are not under contract. The lookup steps V(), V(ids), E(), E(ids) are proved to forward signals in place and to emit, per input traveler and in order, one traveler per listed element resp. per requested id the graph has, carrying that id (the graph's answers are named by an assumed GraphInterface contract); both halves of out/in (from vertex or edge), inE and outE are proved to send one request per traveler (the current id resp. the edge endpoint; none for signals and null rows) and to emit one output per answer of the graph, the requesting traveler moved to the returned element. both()/bothE() is proved to forward signals at once, to hand every other traveler in order to the in- and the out-direction step of the right kind, and to emit everything the first and then everything the second produced. The index lookup step introduced by the start rewrite is proved to send one request per input traveler, label and scanned id and to emit one output per answer, moved to the found vertex's id. Which answers a driver gives is not decided. Typing: StatementProcessor is proved against the "
              "table tnext and DefaultCompiler.Compile (no optimizers, no options) to return the fold of that table over the statements or an error.",
         ref="§5 C01",
         note=TRUST + " Trusted composition principle (Kahn determinacy, DESIGN §4.3): a network of such sequential processes over FIFO channels "
@@ -154,9 +154,10 @@ CLAIMED = {
              "sent for a bucket [b, b+i) is 1.0 added once per collected value v with b <= v < b+i; term consumes its whole input and "
              "emits at most `size` buckets when a size is given; the compiler rejects an aggregate step with two equal names (so the "
              "arms never share a channel); the type arm consumes its whole input and every row it emits carries a type name that occurs "
-             "in the input with exactly the number of input rows of that type. Not decided: percentile (t-digest library), the field arm, "
+             "in the input with exactly the number of input rows of that type. The field arm consumes its whole input and every row it emits carries a key that occurs in the aggregated object of some input row "
+             "with exactly the number of input rows whose object has that key; the first histogram bucket starts at floor(min/i)*i. Not decided: percentile (t-digest library), "
              "that every occurring key gets a row, ordering by frequency "
-             "(library sort), bucket alignment in floating point, and independence under real concurrency.",
+             "(library sort), that later buckets stay on the grid under repeated float addition, and independence under real concurrency.",
         ref="§5 C19",
         note=TRUST + " Assumed: cast.ToFloat64E and jsonpath.TravelerPathLookup contracts, sort.* not modelled, each arm's sends on the shared "
              "output are counted in isolation (sequential process model).",
@@ -192,10 +193,10 @@ CLAIMED = {
              "(smallest key at or after / largest key at or before the target, invalid when there is none, neighbour on Next), "
              "given assumed contracts of the libraries' own cursors. Not decided: the bolt and leveldb wrappers (they test byte "
              "slices against nil, which the model cannot tell from empty; their seek defects were found by inspection, shown by a "
-             "differential demonstration and repaired), point reads/writes and the transaction wrappers of all four drivers, DeletePrefix of "
-             "bolt/leveldb/pebble, and the equality of whole histories across drivers. The block-wise DeletePrefix of badger and pebble and pebble's HasKey/Get are proved against the "
+             "differential demonstration and repaired), point reads/writes of bolt, leveldb and (writes) pebble, the Update/BulkWrite/View wrappers that hand out the handles, DeletePrefix of "
+             "bolt/leveldb, and the equality of whole histories across drivers. The block-wise DeletePrefix of badger and pebble and pebble's HasKey/Get are proved against the "
              "interface contract (on success no key with the prefix is left and every other key and value is unchanged; on failure nothing "
-             "outside the prefix changed); that it is one atomic write is not (it is one transaction per block of 9999 keys). Known finding: writes inside a pebble Update are applied at once (the driver has no transactions).",
+             "outside the prefix changed); that it is one atomic write is not (it is one transaction per block of 9999 keys). The badger driver's point operations (Get, HasKey, Set, Delete of the store and of its transaction handle, Set of its bulk-write handle) are proved against the interface contract over assumed contracts of badger's View/Update/Txn.Get/Set/Delete/Item.Value/WriteBatch.Set. Known finding: writes inside a pebble Update are applied at once (the driver has no transactions).",
         ref="§5 C10",
         note=TRUST + " Assumed: badger v2 and pebble iterator contracts (spec/kvlib.gvc, written from their documentation), the "
              "direction of the cursor badgerIterator.init creates, copyBytes; nil and empty byte slices identified, no stored key empty.",
